@@ -70,12 +70,13 @@ func repeatTs(ts uint64, n int) []uint64 {
 }
 
 type dmlMsg struct {
-	msg  msgstream.TsMsg
-	src  proto.Message // deep copy of the request proto before the writer touched it
-	kind string
-	rows int
-	db   string
-	coll string
+	msg        msgstream.TsMsg
+	src        proto.Message // deep copy of the request proto before the writer touched it
+	kind       string
+	rows       int
+	preStamped bool
+	db         string
+	coll       string
 }
 
 func genDML(t *rapid.T, kind string, db, coll string, ts uint64, vch string) *dmlMsg {
@@ -125,6 +126,22 @@ func genDML(t *rapid.T, kind string, db, coll string, ts uint64, vch string) *dm
 	case "tick":
 		r := &msgpb.TimeTickMsg{Base: &commonpb.MsgBase{MsgType: commonpb.MsgType_TimeTick, Timestamp: ts, SourceID: -1}}
 		d.msg, d.src = &msgstream.TimeTickMsg{BaseMsg: bm, TimeTickMsg: r}, proto.Clone(r)
+	}
+	// a source message may already carry a replication stamp (chained replication, or an empty one)
+	if kind != "tick" {
+		var ri *commonpb.ReplicateInfo
+		switch rapid.IntRange(0, 7).Draw(t, "sourceReplicateInfo") {
+		case 4, 5:
+			ri = &commonpb.ReplicateInfo{}
+		case 6:
+			ri = &commonpb.ReplicateInfo{IsReplicate: true, ReplicateID: "upstream-rid", MsgTimestamp: 9}
+		}
+		if ri != nil {
+			type based interface{ GetBase() *commonpb.MsgBase }
+			d.msg.(based).GetBase().ReplicateInfo = proto.Clone(ri).(*commonpb.ReplicateInfo)
+			d.src.(based).GetBase().ReplicateInfo = proto.Clone(ri).(*commonpb.ReplicateInfo)
+			d.preStamped = true
+		}
 	}
 	return d
 }
@@ -371,7 +388,11 @@ func propC07(t *rapid.T, prop string) {
 			}
 			if replicateID != "" {
 				b := want.ProtoReflect().Get(want.ProtoReflect().Descriptor().Fields().ByName("base")).Message().Interface().(*commonpb.MsgBase)
-				b.ReplicateInfo = &commonpb.ReplicateInfo{IsReplicate: true, ReplicateID: replicateID}
+				// "additionally carries it": the flag and the id are set, whatever else a source stamp held stays
+				if b.ReplicateInfo == nil {
+					b.ReplicateInfo = &commonpb.ReplicateInfo{}
+				}
+				b.ReplicateInfo.IsReplicate, b.ReplicateInfo.ReplicateID = true, replicateID
 			}
 			if !proto.Equal(got, want) {
 				t.Fatalf("%s message %d (%s) decodes to\n  %v\nbut the pack handed to the writer had\n  %v", what, k, m.kind, got, want)
@@ -380,6 +401,11 @@ func propC07(t *rapid.T, prop string) {
 	}
 	sc.Class("mapping:" + string(shape))
 	sc.ClassIf(replicateID != "", "replicate-id")
+	for _, pk := range packs {
+		for _, m := range pk.msgs {
+			sc.ClassIf(m.preStamped, "source-message-already-stamped")
+		}
+	}
 	sc.ClassIf(np > 1, "concurrent-channels")
 	for k := range types {
 		sc.Class("msg:" + k)
